@@ -25,7 +25,7 @@ EXHAUSTIVE_SUBDOMAINS = []
 ASSUMPTIONS = ["pulse samples carry the amplitude plus a small share of the noise; low samples carry noise only", "regime R2 (noise between 0.2 x and 0.316 x the weakest pulse, i.e. 10-13.5 dB SNR) was the recorded finding eof-threshold-below-noise until fix b07124f; it is now judged as strictly as R1",
                "R1 = noise peak below the demodulator's own end-of-frame threshold (0.2 x strongest pulse of the frame)"]
 REQUIRED = ["r1_buffers", "r2_buffers", "second_buffer", "second_buffer_short_tail", "min_gap_after_short", "min_gap_after_long", "df17", "df20", "df21", "df4", "df5", "df11", "offset_even", "offset_odd",
-            "corrupted_df17_rejected", "pure_noise", "multi_frame", "same_frame_twice_in_a_row", "second_reader_alive", "sessions", "session_buffer_11_or_later", "big_busy_first_buffer", "buffer_longer_than_nominal_size"]
+            "corrupted_df17_rejected", "pure_noise", "multi_frame", "same_frame_twice_in_a_row", "second_reader_alive", "reader_in_debug_mode", "sessions", "session_buffer_11_or_later", "big_busy_first_buffer", "buffer_longer_than_nominal_size"]
 
 
 def reader():
@@ -101,7 +101,11 @@ def m_buffer(ctx, case):
         call(r2._process_buffer)
         ctx.hit("second_reader_alive")
     r.signal_buffer = list(buf)
-    res = call(r._process_buffer)
+    if case["bseed"] % 5 == 1:
+        r.debug = True           # the reader's debug mode prints what it sees; what it RETURNS stays the same
+        ctx.hit("reader_in_debug_mode")
+    with contextlib.redirect_stdout(io.StringIO()):
+        res = call(r._process_buffer)
     ctx.ev()
     if case.get("second") and res[0] == "ok" and isinstance(res[1], list):
         # the reader keeps state between buffers (left-over samples, running noise floor): a second buffer of the same
@@ -110,7 +114,8 @@ def m_buffer(ctx, case):
         buf2, exp2, info2 = build(rng2, dict(case, frames=case["second"]))
         off = len(buf) - len(r.signal_buffer)
         r.signal_buffer.extend(buf2)
-        res2 = call(r._process_buffer)
+        with contextlib.redirect_stdout(io.StringIO()):
+            res2 = call(r._process_buffer)
         ctx.ev()
         ctx.hit("second_buffer")
         if case.get("short_tail"):
